@@ -1741,16 +1741,24 @@ class multislater(wave_function_auto):
             wave_data["coeff"],
             wave_data["ref_det"],
         )
-        green = self._calc_green_restricted(walker, wave_data)
+        # the alpha and beta strings of the reference may differ: one Green's function per spin
+        green = self._calc_green(walker, walker, wave_data)
         # _det_overlap addresses rows by orbital number: put each row at its orbital
-        occ = jnp.nonzero(ref_det[0], size=self.nelec[0])[0]
-        green = jnp.zeros((self.norb, self.norb), dtype=green.dtype).at[occ].set(green)
+        occ_a = jnp.nonzero(ref_det[0], size=self.nelec[0])[0]
+        occ_b = jnp.nonzero(ref_det[1], size=self.nelec[1])[0]
+        green_b = (
+            jnp.zeros((self.norb, self.norb), dtype=green[1].dtype)
+            .at[occ_b]
+            .set(green[1])
+        )
+        green = (
+            jnp.zeros((self.norb, self.norb), dtype=green[0].dtype)
+            .at[occ_a]
+            .set(green[0])
+        )
 
         # overlap with the reference determinant
-        overlap_0 = (
-            jnp.linalg.det(walker[jnp.nonzero(ref_det[0], size=self.nelec[0])[0], :])
-            ** 2
-        )
+        overlap_0 = jnp.linalg.det(walker[occ_a, :]) * jnp.linalg.det(walker[occ_b, :])
 
         # overlap / overlap_0
         overlap = coeff[(0, 0)] + 0.0j
@@ -1760,7 +1768,7 @@ class multislater(wave_function_auto):
                 green, Acre[(i, 0)], Ades[(i, 0)]
             ).dot(coeff[(i, 0)])
             overlap += vmap(self._det_overlap, in_axes=(None, 0, 0))(
-                green, Bcre[(0, i)], Bdes[(0, i)]
+                green_b, Bcre[(0, i)], Bdes[(0, i)]
             ).dot(coeff[(0, i)])
 
             for j in range(1, self.max_excitation - i + 1):
@@ -1768,7 +1776,7 @@ class multislater(wave_function_auto):
                     green, Acre[(i, j)], Ades[(i, j)]
                 )
                 overlap_b = vmap(self._det_overlap, in_axes=(None, 0, 0))(
-                    green, Bcre[(i, j)], Bdes[(i, j)]
+                    green_b, Bcre[(i, j)], Bdes[(i, j)]
                 )
                 overlap += (overlap_a * overlap_b) @ coeff[(i, j)]
 
